@@ -11,6 +11,7 @@ package roundrobin
 //@   immutable mtx backoffDuration next errHandler newMeter stickySession requestRewriteListener debug log
 //@   setup Wrap
 //@   guarded_by mtx: timer servers ratings
+//@   protects mtx: next
 //@   ghost gnorm int guarded_by mtx
 //@   lockinv mtx (rb): rb_pool_ok: rbPoolOK(rb)
 //@   lockinv mtx (rb): rb_uniq: rbUniq(rb)
@@ -28,6 +29,12 @@ package roundrobin
 //@ type Meter
 //@   extsync
 //@   mutators Record Rating IsReady
+
+// The wrapped balancer has its own lock, but the rebalancer's records mirror its pool: the two are changed together, under
+// the rebalancer's mutex (an upsert or removal of the pool outside it lets a concurrent administration call interleave).
+//@ type BalancerHandler
+//@   extsync
+//@   mutators UpsertServer RemoveServer
 
 // The wrapped balancer: assumed to behave like *RoundRobin (its own contracts are proved in verif_contracts.go)
 // and to keep its state in its own objects.
